@@ -32,6 +32,14 @@ CHECKS = {
             "Held on the histories observed: thousands of short multi-thread histories with LINE-level yield injection and exception injection."),
     "C20": ("exploration", "2 C20", "runtime monitoring of the public codec methods and factories over a model-instance generator with a normal form for the permitted losses",
             "Held on the instances generated: every type/status/sub-type/action, optional-field patterns, nested errors, timestamps incl. epoch 0."),
+    "C06": ("fault_enumeration", "2 C06", "runtime monitoring: every position of the checkpoint-call sequence made the failing call; API calls, deliveries and outcome after the failure; logical hang/spin rules",
+            "Held on the executions observed: exhaustive failing-call positions for seven program shapes (incl. branch threads, timer-thread refresh, large-result checkpoint) x error classes x lost side, plus random programs under yield injection."),
+    "C14": ("exploration", "2 C14", "runtime monitoring: callback ids and result()/invoke() deliveries vs what the simulated external party delivered",
+            "Held on the executions observed: every terminal status x payload kind x delivery timing x location, plus random programs and crash points."),
+    "C17": ("fault_enumeration", "2 C17", "runtime monitoring: records received by a capturing LoggerInterface vs the program-position rule, over history prefixes and page splits",
+            "Held on the executions observed apart from the listed known findings: sequential log-instrumented programs x enumerated crash points x page splits."),
+    "C18": ("exploration", "2 C18", "runtime monitoring of the handler boundary: outcome shape/classification per scenario and thread liveness afterwards",
+            "Held on the executions observed: behaviours x locations x exception classes x result kinds x malformed events x checkpoint error categories at every API call position."),
 }
 
 NOT_YET = "check under construction in this session (machinery not yet registered)"
